@@ -122,8 +122,15 @@ func gridCase(args []string) string {
 			out[who+"_turn_err"] = "payload: " + err.Error()
 			return
 		}
+		// what the real client keeps of the envelope (its handler stores the servers it will hand to ICE)
+		role := "receiver"
+		if who == "host" {
+			role = "sender"
+		}
+		kept := app.VerifClientTurnServers(role, *e)
+		out[who+"_turn_issued"] = len(tc.Servers)
 		var parsed []map[string]any
-		for _, sv := range tc.Servers {
+		for _, sv := range kept {
 			p, err := ice.VerifParseTurnServer(sv)
 			m := map[string]any{"url": sv}
 			if err != nil {
